@@ -228,11 +228,31 @@ def make_gate(inp, name, dl, dr, chi, kind="dense"):
     return gl, gr
 
 
-def make_pt(inp, name, d, N, bond, rank=4, kind="dense"):
-    """SimpleProcessTensor of length N with symbolic MPO tensors and caps.
-    -> (pt, [effective rank-4 tensors], [caps])"""
+def make_transforms(inp, name, D):
+    """non-trivial transform_in / transform_out of a process tensor: generalised
+    permutations with symbolic weights plus one concrete entry (cheap, asymmetric,
+    non-commuting with the MPO tensors)"""
+    return sparse_matrix(inp, name + "Ti", D, shift=1), sparse_matrix(inp, name + "To", D, shift=2)
+
+
+def apply_transforms(full, tin, tout):
+    """documented meaning of get_mpo_tensor(transformed=True): transform_in maps the system
+    basis to the process-tensor basis on the INPUT leg, transform_out maps back on the OUTPUT
+    leg:  M'[a, b, k, l] = sum_ij tin[k, i] M[a, b, i, j] tout[j, l]"""
+    t = np.tensordot(full, tin, axes=([2], [1]))      # a b j k
+    t = np.moveaxis(t, -1, 2)                         # a b k j
+    return np.tensordot(t, tout, axes=([3], [0]))     # a b k l
+
+
+def make_pt(inp, name, d, N, bond, rank=4, kind="dense", transforms=False):
+    """SimpleProcessTensor of length N with symbolic MPO tensors and caps (and, with
+    transforms=True, symbolic transform_in / transform_out).
+    -> (pt, [effective rank-4 tensors as seen by the system], [caps])"""
     D = d * d
-    pt = ptm.SimpleProcessTensor(hilbert_space_dimension=d, dt=0.1)
+    tin = tout = None
+    if transforms:
+        tin, tout = make_transforms(inp, name, D)
+    pt = ptm.SimpleProcessTensor(hilbert_space_dimension=d, dt=0.1, transform_in=tin, transform_out=tout)
     eff, caps = [], []
     for k in range(N):
         bl = 1 if k == 0 else bond
@@ -255,7 +275,7 @@ def make_pt(inp, name, d, N, bond, rank=4, kind="dense"):
                                             extra=(kind == "sparse"))
             full = M
         pt.set_mpo_tensor(k, M)
-        eff.append(full)
+        eff.append(apply_transforms(full, tin, tout) if transforms else full)
     for k in range(N + 1):
         bl = 1 if k == 0 else bond
         c = inp.arr("%sc%d" % (name, k), (bl,))
